@@ -1,3 +1,4 @@
+import Pdpy11.Model.Shunt
 import Pdpy11.Model.Ops
 import Pdpy11.Model.Eval
 import Mathlib.Data.Int.Bitwise
@@ -153,5 +154,247 @@ theorem char_literal_le (cs : Directive.Charset) (s : List Nat) (b0 b1 : Nat)
 example : binop "div" (-7) 2 = some (-4, none) ∧ binop "mod" (-7) 2 = some (1, none) ∧ binop "mod" 7 (-2) = some (-1, none) := by decide
 example : binop "and_" (-4) 7 = some (4, none) ∧ binop "xor" (-4) 1 = some (-3, none) ∧ binop "or_" (-4) 1 = some (-3, none) := by decide +kernel
 example : binop "rshift" (-7) 1 = some (-4, none) := by decide
+
+/-! ## second part -/
+open Pdpy11.Model.Shunt
+
+def rootPrec : Tree → Nat
+  | .atom _ => 0
+  | .node o _ _ => o.prec
+
+def Normal : Tree → Prop
+  | .atom _ => True
+  | .node o l r => Normal l ∧ Normal r ∧ rootPrec l ≤ o.prec ∧ rootPrec r < o.prec
+
+def stFlat : List (Tree × Op) → List Tok
+  | [] => []
+  | (l, o) :: rest => stFlat rest ++ flat l ++ [.o o]
+
+def restFlat : List (Op × Nat) → List Tok
+  | [] => []
+  | (o, n) :: r => [.o o, .a n] ++ restFlat r
+
+theorem popWhile_flat (p : Nat) (lf : Bool) (e : Tree) (st : List (Tree × Op)) :
+    stFlat (popWhile p lf e st).2 ++ flat (popWhile p lf e st).1 = stFlat st ++ flat e := by
+  induction st generalizing e with
+  | nil => simp [popWhile]
+  | cons hd tl ih =>
+    obtain ⟨l, o⟩ := hd
+    unfold popWhile
+    split
+    · rw [ih]; simp [stFlat, flat, List.append_assoc]
+    · rfl
+
+theorem popAll_flat (e : Tree) (st : List (Tree × Op)) :
+    flat (popAll e st) = stFlat st ++ flat e := by
+  induction st generalizing e with
+  | nil => simp [popAll, stFlat]
+  | cons hd tl ih =>
+    obtain ⟨l, o⟩ := hd
+    simp [popAll, ih, stFlat, flat, List.append_assoc]
+
+theorem shuntAux_flat (e : Tree) (st : List (Tree × Op)) (rest : List (Op × Nat)) :
+    flat (shuntAux e st rest) = stFlat st ++ flat e ++ restFlat rest := by
+  induction rest generalizing e st with
+  | nil => simp [shuntAux, popAll_flat, restFlat]
+  | cons hd tl ih =>
+    obtain ⟨o, n⟩ := hd
+    simp only [shuntAux]
+    rw [ih]
+    simp only [stFlat, flat, restFlat]
+    have := popWhile_flat o.prec o.left e st
+    simp only [List.append_assoc] at *
+    rw [← List.append_assoc (stFlat _), this]
+    simp [List.append_assoc]
+
+/-- the tree contains exactly the given operands and operators, in the given order (any
+precedences, any associativity) -/
+theorem flatten_shunt (n : Nat) (rest : List (Op × Nat)) :
+    flat (shunt n rest) = .a n :: restFlat rest := by
+  simp [shunt, shuntAux_flat, stFlat, flat]
+
+/-- stack invariant -/
+def StInv : Tree → List (Tree × Op) → Prop
+  | _, [] => True
+  | e, (l, o) :: rest => Normal l ∧ rootPrec l ≤ o.prec ∧ rootPrec e < o.prec ∧ StInv (.node o l e) rest
+
+@[simp] theorem rootPrec_node (o l r) : rootPrec (.node o l r) = o.prec := rfl
+@[simp] theorem rootPrec_atom (n) : rootPrec (.atom n) = 0 := rfl
+
+theorem StInv_mono {e e' : Tree} {st} (h : rootPrec e' ≤ rootPrec e) (hi : StInv e st) : StInv e' st := by
+  cases st with
+  | nil => trivial
+  | cons hd tl =>
+    obtain ⟨l, o⟩ := hd
+    obtain ⟨h1, h2, h3, h4⟩ := hi
+    exact ⟨h1, h2, Nat.lt_of_le_of_lt h h3, by
+      apply StInv_mono (e := .node o l e) _ h4
+      simp⟩
+
+theorem popAll_normal (e : Tree) (st) (he : Normal e) (hi : StInv e st) : Normal (popAll e st) := by
+  induction st generalizing e with
+  | nil => simpa [popAll]
+  | cons hd tl ih =>
+    obtain ⟨l, o⟩ := hd
+    obtain ⟨h1, h2, h3, h4⟩ := hi
+    simp only [popAll]
+    exact ih _ ⟨h1, he, h2, h3⟩ h4
+
+theorem popWhile_inv (p : Nat) (e : Tree) (st) (he : Normal e) (hi : StInv e st) :
+    Normal (popWhile p true e st).1 ∧ StInv (popWhile p true e st).1 (popWhile p true e st).2 ∧
+    (rootPrec (popWhile p true e st).1 ≤ max p (rootPrec e)) ∧
+    (∀ l o tl, (popWhile p true e st).2 = (l, o) :: tl → p < o.prec) := by
+  induction st generalizing e with
+  | nil =>
+    refine ⟨by simpa [popWhile] using he, by simp [popWhile, StInv], by simp [popWhile]; omega, by simp [popWhile]⟩
+  | cons hd tl ih =>
+    obtain ⟨l, o⟩ := hd
+    obtain ⟨h1, h2, h3, h4⟩ := hi
+    unfold popWhile
+    split
+    · rename_i hle
+      have := ih (.node o l e) ⟨h1, he, h2, h3⟩ h4
+      obtain ⟨a, b, c, d⟩ := this
+      refine ⟨a, b, ?_, d⟩
+      rw [rootPrec_node] at c
+      have : o.prec ≤ p := by rcases hle with h | h <;> omega
+      omega
+    · rename_i hnle
+      refine ⟨he, ⟨h1, h2, h3, h4⟩, by simp only []; omega, ?_⟩
+      intro l' o' tl' heq
+      simp only [List.cons.injEq, Prod.mk.injEq] at heq
+      obtain ⟨⟨_, rfl⟩, _⟩ := heq
+      have : ¬ (o.prec < p ∨ o.prec = p) := by simpa using hnle
+      omega
+
+theorem shuntAux_normal (n0 : Nat) (st) (rest : List (Op × Nat)) (hi : StInv (.atom n0) st)
+    (hpos : ∀ x ∈ rest, 0 < x.1.prec ∧ x.1.left = true) :
+    Normal (shuntAux (.atom n0) st rest) := by
+  induction rest generalizing n0 st with
+  | nil => exact popAll_normal _ st trivial hi
+  | cons hd tl ih =>
+    obtain ⟨o, n⟩ := hd
+    simp only [shuntAux]
+    have hl : o.left = true := (hpos (o, n) (by simp)).2
+    rw [hl]
+    obtain ⟨a, b, c, d⟩ := popWhile_inv o.prec (.atom n0) st trivial hi
+    apply ih
+    · have hc : rootPrec (popWhile o.prec true (.atom n0) st).1 ≤ o.prec := by
+        rw [rootPrec_atom] at c; omega
+      refine ⟨a, hc, ?_, ?_⟩
+      · rw [rootPrec_atom]; exact (hpos (o, n) (by simp)).1
+      · generalize hst : (popWhile o.prec true (.atom n0) st).2 = st' at *
+        generalize he' : (popWhile o.prec true (.atom n0) st).1 = e' at *
+        cases st' with
+        | nil => trivial
+        | cons hd' tl' =>
+          obtain ⟨l', o'⟩ := hd'
+          obtain ⟨b1, b2, b3, b4⟩ := b
+          have := d l' o' tl' rfl
+          refine ⟨b1, b2, by rw [rootPrec_node]; exact this, ?_⟩
+          exact StInv_mono (e := .node o' l' e') (by simp) b4
+    · intro x hx; exact hpos x (by simp [hx])
+
+/-- for left-associative operators (all of pdpy11's value operators) the tree is in precedence
+normal form: tighter operators are nested deeper, equal precedence groups to the left -/
+theorem shunt_normal (n : Nat) (rest : List (Op × Nat)) (hpos : ∀ x ∈ rest, 0 < x.1.prec ∧ x.1.left = true) :
+    Normal (shunt n rest) := shuntAux_normal n [] rest trivial hpos
+
+
+/-! ### the normal form is unique: the loop's tree is *the* C-like reading -/
+
+def tokPrec : Tok → Nat
+  | .a _ => 0
+  | .o o => o.prec
+
+theorem tok_le_root (t : Tree) (h : Normal t) : ∀ tok ∈ flat t, tokPrec tok ≤ rootPrec t := by
+  induction t with
+  | atom n => intro tok hm; simp [flat] at hm; subst hm; simp [tokPrec]
+  | node o l r ihl ihr =>
+    obtain ⟨hl, hr, h1, h2⟩ := h
+    intro tok hm
+    simp only [flat, List.mem_append, List.mem_singleton] at hm
+    rcases hm with (hm | hm) | hm
+    · have := ihl hl tok hm; simp; omega
+    · subst hm; simp [tokPrec]
+    · have := ihr hr tok hm; simp; omega
+
+/-- a list splits in only one way into (things of weight ≤ w a) ++ a :: (things of weight < w a) -/
+theorem split_unique {α : Type} (w : α → Nat) (xs ys xs' ys' : List α) (a a' : α)
+    (h : xs ++ a :: ys = xs' ++ a' :: ys')
+    (hx : ∀ t ∈ xs, w t ≤ w a) (hy : ∀ t ∈ ys, w t < w a)
+    (hx' : ∀ t ∈ xs', w t ≤ w a') (hy' : ∀ t ∈ ys', w t < w a') : xs = xs' ∧ a = a' ∧ ys = ys' := by
+  induction xs generalizing xs' with
+  | nil =>
+    cases xs' with
+    | nil => simp at h; exact ⟨rfl, h.1, h.2⟩
+    | cons b xs'' =>
+      simp only [List.nil_append, List.cons_append, List.cons.injEq] at h
+      obtain ⟨hab, hys⟩ := h
+      have h1 : w a' < w a := hy a' (by rw [hys]; simp)
+      have h2 : w a ≤ w a' := by rw [hab]; exact hx' b (by simp)
+      omega
+  | cons b xs1 ih =>
+    cases xs' with
+    | nil =>
+      simp only [List.nil_append, List.cons_append, List.cons.injEq] at h
+      obtain ⟨hba, hys⟩ := h
+      have h1 : w a < w a' := hy' a (by rw [← hys]; simp)
+      have h2 : w a' ≤ w a := by rw [← hba]; exact hx b (by simp)
+      omega
+    | cons b' xs1' =>
+      simp only [List.cons_append, List.cons.injEq] at h
+      obtain ⟨hb, ht⟩ := h
+      have := ih xs1' ht (fun t ht' => hx t (by simp [ht'])) (fun t ht' => hx' t (by simp [ht']))
+      exact ⟨by rw [hb, this.1], this.2.1, this.2.2⟩
+
+theorem flat_length_pos (t : Tree) : 0 < (flat t).length := by
+  cases t with
+  | atom n => simp [flat]
+  | node o l r => simp [flat]; omega
+
+/-- Two trees in normal form with the same tokens in the same order are the same tree. Together
+with `flatten_shunt` and `shunt_normal`: the loop returns the unique tree that has the given
+tokens in order and respects precedence and left associativity. -/
+theorem normal_unique (t1 t2 : Tree) (h1 : Normal t1) (h2 : Normal t2) (hf : flat t1 = flat t2) : t1 = t2 := by
+  induction t1 generalizing t2 with
+  | atom n =>
+    cases t2 with
+    | atom m => simp [flat] at hf; rw [hf]
+    | node o l r =>
+      have hl := flat_length_pos l
+      have hr := flat_length_pos r
+      have := congrArg List.length hf
+      simp [flat] at this
+      omega
+  | node o l r ihl ihr =>
+    cases t2 with
+    | atom m =>
+      have hl := flat_length_pos l
+      have hr := flat_length_pos r
+      have := congrArg List.length hf
+      simp [flat] at this
+      omega
+    | node o' l' r' =>
+      obtain ⟨nl, nr, p1, p2⟩ := h1
+      obtain ⟨nl', nr', p1', p2'⟩ := h2
+      simp only [flat, List.append_assoc, List.singleton_append] at hf
+      have key := split_unique tokPrec (flat l) (flat r) (flat l') (flat r') (.o o) (.o o') hf
+        (fun t ht => by have := tok_le_root l nl t ht; show tokPrec t ≤ o.prec; omega)
+        (fun t ht => by have := tok_le_root r nr t ht; show tokPrec t < o.prec; omega)
+        (fun t ht => by have := tok_le_root l' nl' t ht; show tokPrec t ≤ o'.prec; omega)
+        (fun t ht => by have := tok_le_root r' nr' t ht; show tokPrec t < o'.prec; omega)
+      obtain ⟨e1, e2, e3⟩ := key
+      have eo : o = o' := by injection e2
+      rw [ihl l' nl nl' e1, ihr r' nr nr' e3, eo]
+
+/-- the loop computes the one and only normal-form reading of its input -/
+theorem shunt_is_the_reading (n : Nat) (rest : List (Op × Nat)) (hpos : ∀ x ∈ rest, 0 < x.1.prec ∧ x.1.left = true)
+    (t : Tree) (ht : Normal t) (hflat : flat t = .a n :: restFlat rest) : shunt n rest = t :=
+  normal_unique _ _ (shunt_normal n rest hpos) ht (by rw [flatten_shunt, hflat])
+
+/-- `1 + 2 * 3 - 4` with `*` at 3 and `+ -` at 4: `((1 + (2 * 3)) - 4)` -/
+example : render (shunt 1 [(⟨3, 4, true⟩, 2), (⟨0, 3, true⟩, 3), (⟨4, 4, true⟩, 4)]) = "((1 3 (2 0 3)) 4 4)" := by decide
+
 
 end Pdpy11.Props.C05
